@@ -160,7 +160,7 @@ DYN_METHODS = {'to_bytes', 'search', 'encode', 'decode', 'items', 'get', 'append
 EXC_NAMES = {'Exception', 'ValueError', 'TypeError', 'KeyError', 'IndexError', 'AttributeError',
              'NotImplementedError', 'AssertionError', 'SyntaxError', 'ImportError', 'OverflowError',
              'ZeroDivisionError', 'RuntimeError', 'StopIteration', 'LookupError', 'ArithmeticError',
-             'BaseException', 'OSError'}
+             'BaseException', 'OSError', 'FileNotFoundError'}
 
 
 def m_x_Attribute(self, st, n, k):
@@ -171,7 +171,8 @@ def m_x_Attribute(self, st, n, k):
                  'traceback.format_exception',
                  'Bits.ByteBoundaryError', 'sys.byteorder', 'operator.truth', 're.compile',
                  'pickle.dumps', 'pickle.loads', 'Exception.__init__', 're.DEBUG', 'os.path',
-                 'hashlib.sha1', 'inspect.getfile', 'os.remove', 'os.makedirs', 'sys.dont_write_bytecode'):
+                 'hashlib.sha1', 'inspect.getfile', 'os.remove', 'os.makedirs', 'sys.dont_write_bytecode',
+                 'os.replace', 'tempfile.NamedTemporaryFile'):
             if q == 'sys.dont_write_bytecode':
                 if 'env.dont_write_bytecode' not in st.ghost:
                     raise Untranslated('sys.dont_write_bytecode outside an environment contract')
@@ -194,6 +195,8 @@ def m_x_Attribute(self, st, n, k):
         if isinstance(base, VFunc) and base.tag == 'builtin' and base.payload[0] == 'os.path':
             return k(st, VFunc('builtin', 'os.path.' + n.attr))
         if isinstance(base, VEnvObj):
+            if base.cls == 'File' and n.attr == 'name':
+                return k(st, base.get(st))
             return k(st, VFunc('envmeth', base, n.attr))
         if isinstance(base, VRef) and base.cls == 'Module':
             # an attribute of a module object: a name of its namespace
